@@ -7,6 +7,7 @@ CONSTANTS
   Persistent = TRUE
   StartupScrub = FALSE
   EraseOnLookup = FALSE
+  CleanFailedWrite = TRUE
   ListRaw = FALSE
 INVARIANTS Reach_CrashMidWipe
 VIEW View
